@@ -24,7 +24,9 @@ theorem tstep_new_then_schedule {allow : Prop} {h : Hints} {s s1 s' : State} {tn
     (hid : tn.id = s.nextTask) (hon : on.name = s.nextOp) (hot : on.task = s.nextTask)
     (h1t : s1.tasks = aset s.nextTask tn s.tasks) (h1o : s1.ops = aset s.nextOp on s.ops)
     (h1nt : s1.nextTask = s.nextTask + 1) (h1no : s1.nextOp = s.nextOp + 1)
-    (hh : schedule h s1 s.nextTask = .ok s') : TStep allow s s' := by
+    (hh : schedule h s1 s.nextTask = .ok s')
+    (hmew : on.mayExistWithoutWaiters = true → tn.background = true := by
+      simp [bgOp, bgTask, newOp, newTask]) : TStep allow s s' := by
   obtain ⟨t, t', h0, hle, e1, e2, e3, e4⟩ := schedule_shape hh
   have ht : t = tn := by simpa [State.task?, h1t] using h0.symm
   subst ht
@@ -43,8 +45,12 @@ theorem tstep_new_then_schedule {allow : Prop} {h : Hints} {s s1 s' : State} {tn
     simp only [State.op?, e2, h1o, alookup_aset] at e
     by_cases hkk : s.nextOp = k
     · simp only [hkk, if_true] at e; injection e with e; subst e
-      exact .inr ⟨by omega, by omega, hkk ▸ hon, by omega⟩
-    · simp only [hkk, if_false] at e; exact .inl ⟨ok, e, rfl, rfl⟩
+      refine .inr ⟨by omega, by omega, hkk ▸ hon, by omega, ?_⟩
+      intro hm tk' htk'
+      simp only [State.task?, e1, h1t, alookup_aset, hid, hot, if_true, Option.some.injEq] at htk'
+      subst htk'
+      cases hle <;> exact hmew hm
+    · simp only [hkk, if_false] at e; exact .inl ⟨ok, e, rfl, rfl, id⟩
 
 theorem succS_tstep (allow : Prop) {s : State} {t : Task} {tid : Nat} (ev : Event) (r : Resp)
     (h0 : s.task? tid = some t) (hr : t.response = none) :
@@ -96,10 +102,12 @@ theorem completeRetry_tstep {h : Hints} {s s' : State} {t : Task} {tid l : Nat} 
       rw [ht1]; simp only [retryT, largestScq]; split <;> simp
     cases hle <;> exact this
   have hdg : t2.digest = t.digest ∧ t2.dkey = t.dkey := by cases hle <;> (rw [ht1]; simp [retryT])
+  have hbg : t2.background = t.background := by cases hle <;> (rw [ht1]; simp [retryT])
   have := detachT_gen_ge t
   refine TStep.of_task' (k0 := t.id) (t0 := t) (t2 := bumpGen t2) (by rw [hid]; exact h0)
     ⟨by simp [bumpGen, hid2], by simp [bumpGen, hgen]; omega, by simp [bumpGen, hpq], by simp [bumpGen, hdg.1],
-     by simp [bumpGen, hdg.2], by simp [hr], by intro _; simp [bumpGen, hgen]; omega, fun _ => trivial⟩
+     by simp [bumpGen, hdg.2], by simp [hr], by intro _; simp [bumpGen, hgen]; omega, fun _ => trivial,
+     by simp [bumpGen, hbg]⟩
     ?_ ?_ (by simp [e2]) (by simp [e3]) (by simp [e4]) hk
   · intro k
     simp only [State.task?, setTask_tasks, e1, alookup_aset, bumpGen, hid2, ht1id, retryS_tasks, detachW_tasks]
@@ -136,7 +144,7 @@ theorem eraseOp_tstep (allow : Prop) (s : State) (o : Nat) : TStep allow s (eras
     simp only [State.op?, eraseOp_ops, alookup_aerase _ _ _ hk.onodup] at e
     split at e
     · cases e
-    · exact .inl ⟨o', e, rfl, rfl⟩
+    · exact .inl ⟨o', e, rfl, rfl, id⟩
 
 theorem dropOpT_tstep (allow : Prop) {s : State} {t : Task} {k0 : Nat} (o : Nat) (h0 : s.task? k0 = some t) :
     TStep allow s (dropOpT s t o) := by
@@ -150,9 +158,9 @@ theorem dropOpT_tstep (allow : Prop) {s : State} {t : Task} {k0 : Nat} (o : Nat)
       split at e
       · cases e
       · exact .inl ⟨t', e, TaskLe.refl _ _⟩
-    · intro k o' e; exact .inl ⟨o', e, rfl, rfl⟩
+    · intro k o' e; exact .inl ⟨o', e, rfl, rfl, id⟩
   · exact TStep.of_task (t0 := t) (t2 := { t with ops := t.ops.filter (· ≠ o) }) (by rw [hid]; exact h0)
-      ⟨rfl, Nat.le_refl _, rfl, rfl, rfl, fun _ h => h, by simp, by simp [Task.stage]⟩ rfl rfl rfl rfl hk
+      ⟨rfl, Nat.le_refl _, rfl, rfl, rfl, fun _ h => h, by simp, by simp [Task.stage], rfl⟩ rfl rfl rfl rfl hk
 
 theorem removeOp_tstep {allow : Prop} {h : Hints} {s s' : State} {o : Nat} (hh : removeOp h s o = .ok s') :
     TStep allow s s' := by
